@@ -1,5 +1,5 @@
 (* C17 property theorems: statements only, each closed by `exact`. (stub, replaced below) *)
 From Coq Require Import ZArith List.
 From PAFC17 Require Import Model.
-Theorem C17_stub : cur = mkvariant false false.
+Theorem C17_stub : cur = mkvariant false false false.
 Proof. exact eq_refl. Qed.
